@@ -298,6 +298,148 @@ def tr_maps(ev: ast.Module, ct: ast.Module) -> str:
     return "\n".join(out) + "\n"
 
 
+class MiniTr:
+    """A small method over `self` (a dict as its entry list) and value parameters -> a Lean `do` block in
+    `PyM V`.  Statements: if/elif/else, return, raise, single assignment, a terminal try/except around a
+    returning body.  Expressions: parameters/locals, None, cast(T, x), super().get(k[, d]) / dict.get(self, k[, d]),
+    super().__getitem__(k) / dict.__getitem__(self, k), self[k].  Conditions: not / and / or, `k in self`,
+    `k not in self`, `x is None`, `x is not None`, <Class|self>.valid_key_type(x).  Everything else: TranslationError."""
+
+    def __init__(self, what: str, self_name: str, names: List[str]):
+        self.what = what
+        self.self_name = self_name
+        self.names = set(names)
+
+    def fail(self, node):
+        raise TranslationError(f"{self.what}: outside the translated subset: {ast.unparse(node)[:80]}")
+
+    def v(self, name: str) -> str:
+        return "p_" + name
+
+    def is_self(self, e) -> bool:
+        return is_name(e, self.self_name)
+
+    def dict_call(self, e, meth: str):
+        """arguments of super().<meth>(…) / dict.<meth>(self, …), else None"""
+        if not (isinstance(e, ast.Call) and isinstance(e.func, ast.Attribute) and e.func.attr == meth and not e.keywords):
+            return None
+        recv = e.func.value
+        if isinstance(recv, ast.Call) and is_name(recv.func, "super") and not recv.args:
+            return list(e.args)
+        if is_name(recv, "dict") and e.args and self.is_self(e.args[0]):
+            return list(e.args[1:])
+        return None
+
+    def expr(self, e) -> str:
+        """a Lean term of type V, usable inside a do block (monadic parts are `(← …)`)"""
+        e = uncast(e)
+        if isinstance(e, ast.Name) and e.id in self.names:
+            return self.v(e.id)
+        if isinstance(e, ast.Constant) and e.value is None:
+            return ".null"
+        a = self.dict_call(e, "get")
+        if a is not None and len(a) in (1, 2):
+            d = self.expr(a[1]) if len(a) == 2 else ".null"
+            return f"(← dictGetD p_self {self.expr(a[0])} {d})"
+        a = self.dict_call(e, "__getitem__")
+        if a is not None and len(a) == 1:
+            return f"(← dictGetitem p_self {self.expr(a[0])})"
+        if isinstance(e, ast.Subscript) and self.is_self(e.value):
+            return f"(← getitem (.map p_self) {self.expr(e.slice)})"
+        self.fail(e)
+
+    def cond(self, e) -> str:
+        if isinstance(e, ast.UnaryOp) and isinstance(e.op, ast.Not):
+            return f"(!{self.cond(e.operand)})"
+        if isinstance(e, ast.BoolOp):
+            parts = [self.cond(x) for x in e.values]
+            need(not any("←" in p for p in parts[1:]), f"{self.what}: an effectful operand after a short-circuit operator")
+            return "(" + (" && " if isinstance(e.op, ast.And) else " || ").join(parts) + ")"
+        if isinstance(e, ast.Compare) and len(e.ops) == 1:
+            l, r, op = e.left, e.comparators[0], e.ops[0]
+            if isinstance(op, (ast.In, ast.NotIn)) and self.is_self(r):
+                t = f"(← dictContains {self.expr(l)} p_self)"
+                return t if isinstance(op, ast.In) else f"(!{t})"
+            if isinstance(op, (ast.Is, ast.IsNot)) and isinstance(r, ast.Constant) and r.value is None:
+                t = f"(V.isNone {self.expr(l)})"
+                return t if isinstance(op, ast.Is) else f"(!{t})"
+        if isinstance(e, ast.Call) and isinstance(e.func, ast.Attribute) and e.func.attr == "valid_key_type" and len(e.args) == 1 \
+                and (self.is_self(e.func.value) or ctor_name(e.func.value) == "MapType"):
+            return f"(validKey {self.expr(e.args[0])})"
+        self.fail(e)
+
+    def terminates(self, stmts) -> bool:
+        if not stmts:
+            return False
+        st = stmts[-1]
+        if isinstance(st, (ast.Return, ast.Raise)):
+            return True
+        if isinstance(st, ast.If):
+            return bool(st.orelse) and self.terminates(st.body) and self.terminates(st.orelse)
+        if isinstance(st, ast.Try):
+            return self.terminates(st.body) and all(self.terminates(h.body) for h in st.handlers)
+        return False
+
+    def block(self, stmts, ind: str) -> List[str]:
+        out: List[str] = []
+        stmts = [s for s in stmts if not is_logger_call(s) and not isinstance(s, ast.Pass)]
+        need(stmts, f"{self.what}: empty block")
+        for i, st in enumerate(stmts):
+            if isinstance(st, ast.Return):
+                need(st.value is not None, f"{self.what}: bare return")
+                out.append(f"{ind}return {self.expr(st.value)}")
+            elif isinstance(st, ast.Raise):
+                exc = st.exc
+                need(exc is not None, f"{self.what}: bare raise")
+                cls = ctor_name(exc.func) if isinstance(exc, ast.Call) else ctor_name(exc)
+                out.append(f"{ind}throw {lean_exc(cls).replace('Cel.Exc', '')}")
+            elif isinstance(st, (ast.Assign, ast.AnnAssign)):
+                tgt = st.targets[0] if isinstance(st, ast.Assign) else st.target
+                need(isinstance(tgt, ast.Name) and st.value is not None and (not isinstance(st, ast.Assign) or len(st.targets) == 1),
+                     f"{self.what}: assignment shape")
+                val = self.expr(st.value)
+                self.names.add(tgt.id)
+                out.append(f"{ind}let {self.v(tgt.id)} : V := {val}")
+            elif isinstance(st, ast.If):
+                out.append(f"{ind}if {self.cond(st.test)} then")
+                out += self.block(st.body, ind + "  ")
+                if st.orelse:
+                    out.append(f"{ind}else")
+                    out += self.block(st.orelse, ind + "  ")
+            elif isinstance(st, ast.Try):
+                need(i == len(stmts) - 1 and not st.orelse and not st.finalbody and len(st.handlers) == 1 and self.terminates([st]),
+                     f"{self.what}: only a terminal try/except whose branches all return or raise")
+                h = st.handlers[0]
+                need(h.name is None or not any(isinstance(n, ast.Name) and n.id == h.name for b in h.body for n in ast.walk(b)),
+                     f"{self.what}: the handler uses the exception object")
+                classes = [lean_exc(c).replace("Cel.Exc", "") for c in exc_names(h.type)]
+                out.append(f"{ind}match (show PyM V from do")
+                out += self.block(st.body, ind + "    ")
+                out.append(f"{ind}  ) with")
+                for c in classes:
+                    out.append(f"{ind}| .error {c} => do")
+                    out += self.block(h.body, ind + "    ")
+                out.append(f"{ind}| r => r")
+            else:
+                self.fail(st)
+        return out
+
+
+def tr_map_get(ct: ast.Module) -> str:
+    """MapType.get(self, key, default=None): what transpiled code calls for `m.f` (and the interpreter for
+    message fields), translated statement by statement."""
+    fn = find_func(find_class(ct, "MapType").body, "get")
+    ps = [a.arg for a in fn.args.args]
+    need(len(ps) == 3 and not fn.args.vararg and not fn.args.kwarg and not fn.args.kwonlyargs, "MapType.get: (self, key, default)")
+    dflt = fn.args.defaults
+    need(len(dflt) == 1 and isinstance(dflt[0], ast.Constant) and dflt[0].value is None, "MapType.get: default=None")
+    tr = MiniTr("MapType.get", ps[0], ps[1:])
+    body = tr.block(body_of(fn), "  ")
+    need(tr.terminates([s for s in body_of(fn) if not isinstance(s, ast.Pass)]), "MapType.get: a path falls off the end (returns None)")
+    return ("/-- `MapType.get(self, key, default)` (celtypes.py), translated statement by statement; Python's `None` is `V.null` -/\n"
+            f"def mapGet (p_self : List (V × V)) ({tr.v(ps[1])} {tr.v(ps[2])} : V) : PyM V := do\n" + "\n".join(body) + "\n")
+
+
 def tr_string_fns(ev: ast.Module, ct: ast.Module) -> str:
     out = []
     for name in ("function_startsWith", "function_endsWith", "function_contains"):
@@ -455,6 +597,7 @@ def gen_coll() -> str:
     out.append(tr_operator_in(ev))
     out.append(tr_list_getitem(ct))
     out.append(tr_maps(ev, ct))
+    out.append(tr_map_get(ct))
     out.append(tr_string_fns(ev, ct))
     out.append(tr_handlers(ev))
     out.append(tr_macros(ev))
